@@ -2800,7 +2800,7 @@ func ruleLCK8b(w *World, r *Report, lr *lckResult) {
 		if lr.unreachableHelper(root) {
 			continue
 		}
-		if o, ok := root.Object().(*types.Func); ok && (o.Name() == "LoadSnapshotData" || o.Name() == "growNodes") {
+		if o, ok := root.Object().(*types.Func); ok && (canonName(o) == "LoadSnapshotData" || canonName(o) == "growNodes") {
 			continue // the index under construction is not shared yet; growNodes is the publisher itself (LCK-8)
 		}
 		name := shortFn(root)
